@@ -45,10 +45,14 @@ type Mismatch struct {
 }
 
 type OracleFail struct {
-	Line string   `json:"line"`
-	Tags []string `json:"tags"`
-	Go   string   `json:"go"`
-	Why  string   `json:"why"`
+	// the case as generated and everything the oracles said about it (shrinking keeps only the first property's
+	// verdict alive)
+	OrigLine string   `json:"orig_line,omitempty"`
+	OrigWhy  string   `json:"orig_why,omitempty"`
+	Line     string   `json:"line"`
+	Tags     []string `json:"tags"`
+	Go       string   `json:"go"`
+	Why      string   `json:"why"`
 }
 
 type Report struct {
@@ -298,7 +302,7 @@ func runView(v View, seed uint64, n int, driver, corpusDir string) *Report {
 				rep.Cases = i + 1
 				return rep
 			}
-			rep.OracleFails = append(rep.OracleFails, OracleFail{Line: small, Go: o2, Why: w2, Tags: t2})
+			rep.OracleFails = append(rep.OracleFails, OracleFail{Line: small, Go: o2, Why: w2, Tags: t2, OrigLine: l, OrigWhy: oracle})
 		}
 	}
 	rep.Kinds = len(rep.Tags)
